@@ -1,6 +1,6 @@
 --------------------------- MODULE Trace_CoreProps ---------------------------
 (* Validates core-properties traces observed from the real library against the PROPERTY layer of CoreProps (C18).
-   R.inits[kind]  = full state projected before the first action of a package of that kind ("absent" | "empty" | "template" | "foreign")
+   R.inits[kind]  = full state projected before the first action of a package of that kind ("absent" | "empty" | "template" | "foreign" | "sparse")
    R.traces[k] = [ id, kind,
                    steps : Seq([a, out, d]) ]   a: action record, out: "ok" | exception class,
                                                 d: the state after the call as a delta [present, xsd, str : Seq([p, v]),
